@@ -204,8 +204,6 @@ hide!(hide_34_26_s3_lp2, 34, 26, 3, 2);
 hide!(hide_13_16_s3_lp0, 13, 16, 3, 0);
 //@ props=C11,C12 tier=quick unwind=52 stubs=md5 uwset=message/avp.rs@(1..n_chunks).rev()=4;message/avp.rs@in~1..n_chunks~{=4 witness=revealed cap=1800
 hide!(hide_7_20_s3_lp12, 7, 20, 3, 12);
-//@ props=C11,C12 tier=thorough unwind=42 stubs=md5,utf8 uwset=message/avp.rs@(1..n_chunks).rev()=2;message/avp.rs@in~1..n_chunks~{=2 witness=revealed cap=1800
-hide!(hide_12_5_s3_lp1, 12, 5, 3, 1);
 //@ props=C11,C12 tier=thorough unwind=42 stubs=md5 uwset=message/avp.rs@(1..n_chunks).rev()=2;message/avp.rs@in~1..n_chunks~{=2 witness=revealed cap=1800
 hide!(hide_39_0_s3_lp0, 39, 0, 3, 0);
 //@ props=C11,C12 tier=thorough unwind=42 stubs=md5 uwset=message/avp.rs@(1..n_chunks).rev()=2;message/avp.rs@in~1..n_chunks~{=2 witness=revealed cap=1800
@@ -244,7 +242,6 @@ pub const HARNESSES: &[(&str, fn())] = &[
     ("hide_34_26_s3_lp2", hide_34_26_s3_lp2),
     ("hide_13_16_s3_lp0", hide_13_16_s3_lp0),
     ("hide_7_20_s3_lp12", hide_7_20_s3_lp12),
-    ("hide_12_5_s3_lp1", hide_12_5_s3_lp1),
     ("hide_39_0_s3_lp0", hide_39_0_s3_lp0),
     ("hide_5_8_s3_lp6", hide_5_8_s3_lp6),
     ("hide_7_30_s1_lp16", hide_7_30_s1_lp16),
